@@ -717,39 +717,28 @@ def load_replay(path):
     return json.load(open(path))["case"]
 
 
-# --------------------------------------------------------------------------- in-process harness modules (P4)
+# --------------------------------------------------------------------------- in-process harness packages (P4)
 
-def harness_module(ctx, name, extra_requires=()):
-    """Scratch module that imports mockery's packages from the scratch *copy of the working tree*
-    (replace directive) and contains the Go sources of /verif/godrv/<name>."""
+def build_harness(ctx, name, race=False):
+    """Copy /verif/godrv/<name>/*.go into the scratch *copy of the working tree* as package
+    ./zzverif_<name> and build it there (workspace mode, exactly the module versions the
+    repository itself builds with). /repo is never touched."""
     if ctx.src is None:
         src = os.path.join(ctx.root, "src")
         os.makedirs(src)
         copy_repo(src)
         ctx.src = src
-    d = os.path.join(ctx.root, "h_" + name)
+    d = os.path.join(ctx.src, "zzverif_" + name)
     os.makedirs(d, exist_ok=True)
-    req = ["github.com/vektra/mockery/v3 v3.0.0", "golang.org/x/exp v0.0.0-20240719175910-8a7402abbf56"] + list(extra_requires)
-    gomod = "module verif/harness/%s\n\ngo 1.23.7\n\nrequire (\n%s\n)\n\nreplace github.com/vektra/mockery/v3 => %s\n" % (
-        name, "\n".join("\t" + r for r in req), ctx.src)
-    with open(os.path.join(d, "go.mod"), "w") as f:
-        f.write(gomod)
-    with open(os.path.join(d, "go.sum"), "w") as f:
-        f.write(go_sum_text())
     srcdir = os.path.join(VERIF, "godrv", name)
     for fn in os.listdir(srcdir):
         if fn.endswith(".go"):
             shutil.copy(os.path.join(srcdir, fn), os.path.join(d, fn))
-    return d
-
-
-def build_harness(ctx, name, race=False, extra_requires=()):
-    d = harness_module(ctx, name, extra_requires)
     out = os.path.join(ctx.root, "bin", "h_" + name)
     os.makedirs(os.path.dirname(out), exist_ok=True)
-    cmd = ["go", "build", "-tags", GUARD_TAG] + (["-race"] if race else []) + ["-o", out, "."]
+    cmd = ["go", "build", "-tags", GUARD_TAG] + (["-race"] if race else []) + ["-o", out, "./zzverif_" + name]
     t = time.time()
-    p = subprocess.run(cmd, cwd=d, env=scratch_env(), capture_output=True, text=True)
+    p = subprocess.run(cmd, cwd=ctx.src, env=base_env(), capture_output=True, text=True)
     if p.returncode != 0:
         sys.stderr.write(p.stdout + p.stderr)
         raise BuildError("harness %s does not build against the working tree" % name)
